@@ -249,10 +249,11 @@ func (v *FHIRPathVisitor) VisitEqualityExpression(ctx *grammar.EqualityExpressio
 		expression = &expr.EqualityExpression{Left: leftResult.Result, Right: rightResult.Result}
 	case expr.NotEquals:
 		expression = &expr.EqualityExpression{Left: leftResult.Result, Right: rightResult.Result, Not: true}
-	case expr.Equivalence:
-		// TODO (PHP-5889): Implement equivalence expressions
-	case expr.Inequivalence:
-		// TODO (PHP-5889): Implement non-equivalence expressions
+	case expr.Equivalence, expr.Inequivalence:
+		// TODO (PHP-5889): Implement equivalence and non-equivalence expressions
+		return &VisitResult{nil, errNotSupported}
+	default:
+		return &VisitResult{nil, errNotSupported}
 	}
 	return v.transformedVisitResult(expression)
 }
